@@ -281,6 +281,226 @@ Example c18_cache_member_datahash_reachable_ex :
   verify_datahash_accepts [la "../../x"] (la "00ff") = false.
 Proof. repeat split; vm_compute; reflexivity. Qed.
 
+(* ---- the directory-backed filesystem on a host WITH a parent directory ----------------
+
+   Model/ConfineHost.v: the host is one tree rooted at "/" (files, symbolic links with
+   their target text, directories), the base [b] a place in it; every os call of a dirFS
+   method is resolved the way the kernel does (".." to the PHYSICAL parent, links
+   followed where the call follows them) and reports the places it creates, modifies or
+   deletes; the in-memory overlay's side of each method is modelled next to it
+   ([xstep] / [xrun]: both sides in source order).  The canary stage runs the same
+   operations on the real dirFS and compares answers and changed places.
+
+   [good P bp h]: the base is a directory reached from "/" through plain directories
+   and every symbolic link below it satisfies [P] at the depth of its own directory;
+   [tameP k t] = the target [t] is relative, all its ".." come first and there are at
+   most [k] of them; [names_ok o] = the operation's names do not climb lexically
+   ([ups n = 0]; a/../b is fine; Remove: not the root itself); [fits P b h o] = where the
+   kernel puts a NEW link (Symlink; Link of a symbolic link) its target satisfies [P]. *)
+From Apko Require Import Model.ConfineHost Model.ConfineTemp Proofs.ConfineHostProofs Proofs.ConfineHostWitness Proofs.ConfineTemp.
+
+(* One step: if the host is good and the operation's names do not climb, every place
+   the step touches on the host lies at or below the base and the host stays good —
+   WHATEVER the overlay holds or answers ([s] is any state). *)
+Theorem c18_hostfs_step_confined : forall b s o, is_abs b = true ->
+  good tameP (cc b) (x_host s) -> names_ok o = true -> fits tameP b (x_host s) o ->
+  good tameP (cc b) (x_host (fst (fst (xstep b s o)))) /\
+  Forall (fun q => cprefix (cc b) q) (snd (xstep b s o)).
+Proof. intros b s o. exact (xstep_confined tameP (fun k t H => H) b s o). Qed.
+Print Assumptions c18_hostfs_step_confined.
+
+(* A run (the installer's "stop at the first error" or not): the conditions are asked
+   of each operation in the state it meets ([run_ok]). *)
+Theorem c18_hostfs_run_confined : forall b stop ops s, is_abs b = true ->
+  good tameP (cc b) (x_host s) -> run_ok tameP b s ops ->
+  good tameP (cc b) (x_host (fst (xrun b stop s ops))) /\
+  Forall (fun r => Forall (fun q => cprefix (cc b) q) (snd r)) (snd (xrun b stop s ops)).
+Proof. intros b stop ops s. exact (xrun_confined tameP (fun k t H => H) b stop ops s). Qed.
+Print Assumptions c18_hostfs_run_confined.
+
+(* The static form: no name climbs, and no symbolic link — there before or made by
+   the run — has a ".." in its target ([flat_op], [flatP]): then nothing is asked of
+   the intermediate states. *)
+Theorem c18_hostfs_run_confined_flat : forall b stop ops s, is_abs b = true ->
+  good flatP (cc b) (x_host s) -> forallb flat_op ops = true ->
+  Forall (fun r => Forall (fun q => cprefix (cc b) q) (snd r)) (snd (xrun b stop s ops)).
+Proof. exact xrun_confined_flat. Qed.
+Print Assumptions c18_hostfs_run_confined_flat.
+
+(* the hypotheses can be met: a good host; a run with ".." links that fit and unclean
+   names (every answer is "ok", the host stays good); a flat run *)
+Example c18_hostfs_confined_ex :
+  (good tameP (cc w_base) w_host /\ good flatP (cc w_base) w_host) /\
+  (forallb names_ok w_tame = true /\
+   answers (xrun w_base false w_init w_tame) = [true; true; true; true; true; true; true] /\
+   good tameP (cc w_base) (x_host (fst (xrun w_base false w_init w_tame)))) /\
+  (forallb flat_op w_flat = true /\
+   answers (xrun w_base false w_init w_flat) = [true; true; true; true; true; true; true; true]).
+Proof. exact (conj w_host_good (conj w_tame_facts w_flat_ok)). Qed.
+
+(* c18_dirfs_confined, operationally, is FALSE — each witness below is a run on the
+   host /n/T/{root,victim}, /n/victim, /victim with base /n/T/root, replayed on the real
+   dirFS by the canary corpus:
+   F1  the name itself climbs: WriteFile ../escaped.txt touches /n/T/escaped.txt and is
+       answered "error" afterwards;
+   F2  names do not climb; an absolute link to a host directory, a host-first method beneath;
+   F6  names do not climb and the method is tree-checked (Create / Remove), but the overlay
+       ACCEPTS (answers true) what the kernel resolves outside:
+       - absolute: the tree holds the same path below its own root;
+       - unclean: in p/l -> a/../victim the ".." cancels a name that is itself a link
+         (lexically the target is "victim");
+       - detour: every target climbs no more than the directory of the NAME it is made
+         under is deep, but d1/d2/up/l3 is physically the root's entry;
+       - Remove deletes there. *)
+Theorem c18_dirfs_confined_refuted_operational :
+  (names_ok (HWriteFile (s "../escaped.txt")) = false /\
+   answers (xrun w_base false w_init w_f1) = [false] /\
+   touched (xrun w_base false w_init w_f1) = [[[s "n"; s "T"; s "escaped.txt"]]]) /\
+  (forallb names_ok w_f2 = true /\
+   answers (xrun w_base false w_init w_f2) = [true; false] /\
+   touched (xrun w_base false w_init w_f2) = [[[s "n"; s "T"; s "root"; s "l"]]; [[s "n"; s "T"; s "victim"; s "x"]]]) /\
+  (forallb names_ok w_f6_abs = true /\
+   answers (xrun w_base false w_init w_f6_abs) = [true; true; true] /\
+   last (touched (xrun w_base false w_init w_f6_abs)) [] = [[s "n"; s "T"; s "victim"; s "pwned.txt"]]) /\
+  (forallb names_ok w_f6_unclean = true /\
+   answers (xrun w_base false w_init w_f6_unclean) = [true; true; true; true] /\
+   last (touched (xrun w_base false w_init w_f6_unclean)) [] = [[s "n"; s "T"; s "victim"; s "pwned.txt"]] /\
+   clean (s "a/../victim") = s "victim") /\
+  (forallb names_ok w_f6_detour = true /\
+   answers (xrun w_base false w_init w_f6_detour) = [true; true; true; true; true] /\
+   last (touched (xrun w_base false w_init w_f6_detour)) [] = [[s "n"; s "victim"; s "pwned.txt"]] /\
+   tame_target 2 (s "../..") = true /\ tame_target 3 (s "../../victim") = true) /\
+  (forallb names_ok w_f6_remove = true /\
+   answers (xrun w_base false w_init w_f6_remove) = [true; true; true; true; true; true] /\
+   last (touched (xrun w_base false w_init w_f6_remove)) [] = [[s "n"; s "victim"; s "keep.txt"]]).
+Proof.
+  exact (conj w_f1_escapes (conj w_f2_escapes (conj w_f6_abs_escapes (conj w_f6_unclean_escapes
+        (conj w_f6_detour_escapes w_f6_remove_escapes))))).
+Qed.
+Print Assumptions c18_dirfs_confined_refuted_operational.
+
+(* why [fits] asks about Link too: a hard link to a symbolic link carries the target
+   text into another directory, where it may climb above the base *)
+Theorem c18_hardlink_of_symlink_unfit :
+  forallb names_ok w_unfit = true /\ answers (xrun w_base false w_init w_unfit) = [true; true; true] /\
+  tame_at tameP (cc w_base) (x_host (fst (xrun w_base false w_init w_unfit))) = false.
+Proof. exact w_unfit_not_tame. Qed.
+Print Assumptions c18_hardlink_of_symlink_unfit.
+
+(* ---- the gate of the tree-checked methods ------------------------------------------------
+
+   Create / OpenFile(O_CREATE) / Remove ask the overlay first; its lookup
+   (getNodeCountLinks, [walk] / [get_node]) joins a relative link target to the names
+   traversed so far — [memfs_link_join], read from the source: filepath.Join of exactly
+   these two, NOT anchored at a root.  So a target that climbs above the tree's root
+   still begins with ".." after the join, ".." is looked up as a child name, and the
+   walk fails.  (Anchoring the join at "/" would swallow the ".." there, chroot-style,
+   while the kernel does not: seeded change C18-4.) *)
+Theorem c18_overlay_refuses_climbing_link :
+  (memfs_link_join = ["traversed"; "target"]%string /\ tarfs_link_join = ["traversed"; "target"]%string /\
+   memfs_mkdirall_link_join = ["traversed"; "target"]%string /\ memfs_open_link_join = ["var"; "target"]%string) /\
+  (forall fuel ml ch chd traversed part rest depth target,
+     lookup_child ch dd = None ->
+     str_eqb part [] = false -> lookup_child chd part = Some (NLink target) -> is_abs target = false ->
+     hd_error (cc (join [join_sl traversed; target])) = Some dd ->
+     forall n, walk ml (get_node fuel ml (NDir ch)) (NDir chd) traversed (part :: rest) depth <> LOk n) /\
+  (forall b h ch p, lookup_child ch dd = None -> hd_error (cc (dir p)) = Some dd ->
+     xstep b (mkX h (NDir ch)) (HCreate p) = (mkX h (NDir ch), false, []) /\
+     xstep b (mkX h (NDir ch)) (HRemove p) = (mkX h (NDir ch), false, [])).
+Proof.
+  split; [repeat split; reflexivity|].
+  exact (conj overlay_refuses_climbing_link tree_first_refuses_climbing_dir).
+Qed.
+Print Assumptions c18_overlay_refuses_climbing_link.
+
+(* the shape of C18-4 on the code as it is: opt/data -> ../../victim with an in-root
+   /victim; Create and Remove beneath are refused and the host is not touched outside *)
+Example c18_overlay_refuses_climbing_link_ex :
+  answers (xrun w_base false w_init w_climb) = [true; true; true; false; false] /\
+  forallb (fun t => forallb (fun q => negb (outside_base q)) t) (touched (xrun w_base false w_init w_climb)) = true /\
+  hd_error (cc (join [join_sl [s "opt"]; s "../../victim"])) = Some dd.
+Proof. exact w_climb_refused. Qed.
+
+(* [get_pos], the lookup the operational model uses, is [get_node] (the one compared
+   with the real trees by the paths stage) together with the place of the node *)
+Theorem c18_get_pos_is_get_node : forall fuel ml root path depth,
+  match get_pos fuel ml root path depth with
+  | Some q => exists n, get_node fuel ml root path depth = LOk n /\ node_at root q = Some n
+  | None => forall n, get_node fuel ml root path depth <> LOk n
+  end.
+Proof. exact get_pos_get_node. Qed.
+Print Assumptions c18_get_pos_is_get_node.
+
+(* ---- names apko makes up itself: temporary files, advertised cache names, alpine keys ----
+
+   [expandapk_sites] / [paths_sites]: every call in pkg/apk/expandapk and pkg/paths that
+   creates, renames, links or removes a file, with its arguments traced back to the
+   function's parameters ($i), its receiver ($r) and literals — read from the source on
+   this run.  The model below follows these derivations. *)
+Theorem c18_temp_files_confined :
+  (expandapk_sites =
+     [("APKExpanded.PackageData", "os.CreateTemp", ["filepath.Dir($r.TarFile)"; """*.tmp"""]);
+      ("APKExpanded.PackageData", "os.Remove", ["{os.Open($r.TarFile) | os.CreateTemp(filepath.Dir($r.TarFile), ""*.tmp"")}.Name()"]);
+      ("APKExpanded.PackageData", "os.Remove", ["{os.Open($r.TarFile) | os.CreateTemp(filepath.Dir($r.TarFile), ""*.tmp"")}.Name()"]);
+      ("APKExpanded.PackageData", "os.Rename", ["{os.Open($r.TarFile) | os.CreateTemp(filepath.Dir($r.TarFile), ""*.tmp"")}.Name()"; "$r.TarFile"]);
+      ("APKExpanded.PackageData", "os.Remove", ["{os.Open($r.TarFile) | os.CreateTemp(filepath.Dir($r.TarFile), ""*.tmp"")}.Name()"]);
+      ("APKExpanded.Close", "os.RemoveAll", ["$r.tempDir"]);
+      ("expandApkWriter.Next", "os.Create", ["fmt.Sprintf(""%s-%d.%s"", filepath.Join($r.parentDir, $r.baseName), $r.streamId, $r.ext)"]);
+      ("ExpandApk", "os.MkdirTemp", ["$2"; """expand-apk"""]);
+      ("ExpandApk", "os.Create", ["strings.TrimSuffix(newExpandApkWriter(os.MkdirTemp($2, ""expand-apk""), ""stream"", ""tar.gz"").CurrentName(), "".gz"")"])]%string /\
+   paths_sites =
+     [("AdvertiseCachedFile", "os.Remove", ["$0"]);
+      ("AdvertiseCachedFile", "os.Symlink", ["{filepath.Rel(filepath.Dir($1), $0) | $0}"; "$1"])]%string /\
+   expand_stream_format = "%s-%d.%s"%string) /\
+  (* ExpandApk(source, cacheDir): the temporary directory, every stream file and the tar *)
+  (forall cacheDir r ks kt p, is_abs cacheDir = true ->
+     digits_ok r = true -> forallb digits_ok ks = true -> digits_ok kt = true ->
+     In p (expand_creates cacheDir r ks kt) -> under cacheDir p) /\
+  (* PackageData: the temporary file is made in TarFile's directory (and renamed to TarFile) *)
+  (forall tarf r p, is_abs tarf = true -> digits_ok r = true ->
+     packagedata_tmp tarf r = Some p -> under (dir tarf) p) /\
+  (* cachePackage hands AdvertiseCachedFile names made of a hash in hexadecimal and a suffix *)
+  (forall cacheDir h x, is_abs cacheDir = true -> forallb is_hex_char h = true -> no_slash x -> 2 < List.length x ->
+     under cacheDir (advertised_name cacheDir h x) /\ cc (advertised_name cacheDir h x) = cc cacheDir ++ [h ++ x]).
+Proof.
+  split; [repeat split; reflexivity|].
+  exact (conj expand_creates_confined (conj packagedata_tmp_confined advertised_name_confined)).
+Qed.
+Print Assumptions c18_temp_files_confined.
+
+Example c18_temp_files_confined_ex :
+  expand_creates (la "/t/cache/r/x86_64/p-1") (la "123") [la "1"; la "2"] (la "2") =
+    [la "/t/cache/r/x86_64/p-1/expand-apk123"; la "/t/cache/r/x86_64/p-1/expand-apk123/stream-1.tar.gz";
+     la "/t/cache/r/x86_64/p-1/expand-apk123/stream-2.tar.gz"; la "/t/cache/r/x86_64/p-1/expand-apk123/stream-2.tar"] /\
+  packagedata_tmp (la "/t/cache/r/x86_64/p-1/00ff.dat.tar") (la "42") = Some (la "/t/cache/r/x86_64/p-1/42.tmp").
+Proof. split; vm_compute; reflexivity. Qed.
+
+(* fetchAlpineKeys names the key url.PathUnescape(filepath.Base(url)) — DECODED — joins it
+   to etc/apk/keys and stores it with OpenFile(O_CREATE): the name can climb out of the
+   keys directory and out of the root (refutation of "the key file is below etc/apk/keys");
+   on the directory-backed filesystem a name whose directory climbs is refused by the
+   overlay's lookup before the host is asked (the second part of
+   c18_overlay_refuses_climbing_link applies: OpenFile is tree-checked), and a name that
+   does not climb is covered by c18_hostfs_step_confined. *)
+Theorem c18_alpine_key_name :
+  (alpine_key_name_chain = ["url.PathUnescape"; "filepath.Base"]%string /\
+   alpine_key_dir = "etc/apk/keys"%string /\
+   alpine_key_store = ("OpenFile", "os.O_CREATE | os.O_WRONLY")%string) /\
+  (exists u p, alpine_key_file u = Some p /\ p = la "../c18-k.rsa.pub" /\ hd_error (cc (dir p)) = Some dd) /\
+  (forall b h ch u p, alpine_key_file u = Some p ->
+     lookup_child ch dd = None -> hd_error (cc (dir p)) = Some dd ->
+     xstep b (mkX h (NDir ch)) (HCreate p) = (mkX h (NDir ch), false, [])) /\
+  (forall b s u p, alpine_key_file u = Some p -> is_abs b = true -> good tameP (cc b) (x_host s) -> ups p = 0 ->
+     Forall (fun q => cprefix (cc b) q) (snd (xstep b s (HCreate p)))).
+Proof.
+  split; [repeat split; reflexivity|]. split; [exact alpine_key_climbs|]. split.
+  - intros b h ch u p _ ND HD. exact (proj1 (tree_first_refuses_climbing_dir b h ch p ND HD)).
+  - intros b s0 u p _ HB G U.
+    refine (proj2 (xstep_confined tameP (fun k t H => H) b s0 (HCreate p) HB G _ I)).
+    simpl. apply Nat.eqb_eq. exact U.
+Qed.
+Print Assumptions c18_alpine_key_name.
+
 (* ---- the directory-backed filesystem, operationally -----------------------------------
 
    From here on the names [op], [st], [dirfs_step], [host_call] ... are those of the
@@ -332,19 +552,25 @@ Qed.
 
 (* The positive complement, over the operational model: a step changes the host only
    through one host call on the operation's own names (handed over as filepath.Join
-   cleans them, [hp]); if none of the names has a ".." component, that call's names do
-   not climb ([climbs] = false: C17's reading) and the host paths
-   filepath.Join(base, name) are under the base (C18's lexical reading).
-   Partial: names WITH a ".." component that still end up inside (a/../b) are not
-   covered here; c18_clean_join_under characterises them lexically. *)
-Theorem c18_dirfs_confined_operational_partial : forall b d o, is_abs b = true ->
-  Forall wfpath (op_names o) -> Forall (fun p => ~ In ".."%string p) (op_names o) ->
+   cleans them, [hp]); if none of the names climbs above the base LEXICALLY
+   ([ups (pstr p) = 0]: a/../b and a/b/../../c are fine), that call's names do not climb
+   ([climbs] = false: C17's reading), what the host sees has no ".." left, and the host
+   paths filepath.Join(base, name) are under the base (C18's lexical reading).
+   (Until session 4 this excluded every name with a ".." component.)  WHERE such a call
+   lands when links are followed is the subject of c18_hostfs_step_confined. *)
+Theorem c18_dirfs_confined_operational : forall b d o, is_abs b = true ->
+  Forall wfpath (op_names o) -> Forall (fun p => ups (pstr p) = 0) (op_names o) ->
   d_host (fst (dirfs_step d o)) = d_host d \/
   exists c, d_host (fst (dirfs_step d o)) = fst (host_step (d_host d) (host_op c)) /\
             op_names (host_op c) = map hp (op_names c) /\
-            Forall (fun p => climbs p = false /\ under b (dirfs_host_path b (pstr p))) (op_names c).
-Proof. exact dirfs_confined_operational. Qed.
-Print Assumptions c18_dirfs_confined_operational_partial.
+            Forall (fun p => climbs p = false /\ ~ In ".."%string (hp p) /\ under b (dirfs_host_path b (pstr p))) (op_names c).
+Proof. exact dirfs_confined_operational_wide. Qed.
+Print Assumptions c18_dirfs_confined_operational.
+
+Example c18_dirfs_confined_operational_wide_ex :
+  wfpath ["a"; ".."; "b"]%string /\ ups (pstr ["a"; ".."; "b"]%string) = 0 /\ hp ["a"; ".."; "b"]%string = ["b"]%string /\
+  In ".."%string ["a"; ".."; "b"]%string.
+Proof. exact dirfs_confined_operational_wide_ex. Qed.
 
 Example c18_dirfs_confined_operational_ex :
   wfpath ["etc"; "apk"; "world"]%string /\ ~ In ".."%string ["etc"; "apk"; "world"]%string /\
